@@ -231,7 +231,7 @@ class Interp:
             if k == "adt" and t["path"].endswith("UnsafeCell"):
                 return t["args"][0]
             return None
-        if p == "[]":
+        if isinstance(p, str) and p.startswith("["):
             if k in ("array", "slice"):
                 return t["ty"]
             return None
@@ -350,6 +350,14 @@ class Interp:
                 loc = self.add_proj(loc, p)
             elif p.startswith("as "):
                 continue
+            elif p.startswith("[_"):
+                iv = st.mem.get((fid, int(p[2:-1])))
+                if iv is not None and iv[0] == "const" and isinstance(iv[1], int) and not isinstance(iv[1], bool):
+                    loc = self.add_proj(loc, "[%d]" % iv[1])
+                else:
+                    loc = self.add_proj(loc, "[]")
+            elif p.startswith("[c") and p[2:-1].isdigit():
+                loc = self.add_proj(loc, "[%s]" % p[2:-1])
             elif p.startswith("["):
                 loc = self.add_proj(loc, "[]")
             else:
@@ -472,7 +480,19 @@ class Interp:
         return self.fresh_op(st, "rv", tag=("rvalue", rv.get("s", k)))
 
     # ---- events -----------------------------------------------------------
+    def resolve1(self, st, v):
+        """Value behind a reference to a local (one level), so events can name the object an `&mut local` denotes."""
+        if v[0] == "ref" and v[1][0] == "L":
+            x = self.load(st, v[1])
+            if x[0] not in ("uninit", "moved"):
+                return x
+        return v
+
     def emit(self, st, ev, fn=None, line=None):
+        if "args" in ev and "argv" not in ev:
+            ev["argv"] = [self.resolve1(st, a) for a in ev["args"]]
+        if "into" in ev:
+            ev["intov"] = self.resolve1(st, ev["into"])
         if fn is not None:
             ev["fn"] = fn["path"]
             ev["file"] = fn["span"]["file"]
@@ -513,7 +533,13 @@ class Interp:
     def recv_of(self, st, v):
         """Receiver location named by a `&self`-like argument value."""
         if v[0] == "ref":
-            return self.canon(v[1])
+            loc = v[1]
+            if loc[0] == "L" and not loc[3]:
+                # a by-value local holding an opaque object *is* that object
+                x = st.mem.get((loc[1], loc[2]))
+                if x is not None and x[0] == "op" and x[1] in self.oploc:
+                    return self.canon(self.oploc[x[1]])
+            return self.canon(loc)
         if v[0] == "op":
             base = self.oploc.get(v[1])
             if base is not None:
@@ -1034,7 +1060,7 @@ class Interp:
         if lfn is not None:
             return self.inline(st, lfn, args, depth)
         # unknown foreign function
-        ev = self.emit(st, {"k": "CALL", "def": tdef, "args": args}, fn, line)
+        ev = self.emit(st, {"k": "CALL", "def": tdef, "base": d, "args": args}, fn, line)
         rv = self.fresh_op(st, "r", dest_ty, tag=("call", tdef, ev["i"]))
         ev["result"] = rv[1]
         nounwind = (d in NOUNWIND) or (tdef in NOUNWIND) or (d in self.nounwind_extra)
